@@ -59,8 +59,9 @@ type Writer struct {
 	Version       string
 	// Hook, when set, sees every value just before it is written: kind is "obj"
 	// (num = object number; for streams the dictionary incl. /Length, /Filter,
-	// /DecodeParms), "trailer", or "raw" (o = Str holding the encoded stream
-	// bytes). It returns the value to write. Fault injection only.
+	// /DecodeParms), "trailer", "plain" (o = Str holding a stream's data before
+	// encoding) or "raw" (o = Str holding the encoded stream bytes). It returns
+	// the value to write. Fault injection only.
 	Hook func(kind string, num int, o Obj) Obj
 	// PrevHook may replace the /Prev offset (fault injection: cyclic chains).
 	PrevHook func(rev, xrefOff, prev int) int
@@ -418,7 +419,13 @@ func (w *Writer) writeIndirect(num, gen int, o Obj) {
 		return
 	}
 	if st.Raw == nil {
-		st.Raw = Encode(st.Plain, st.Filters, w.r)
+		plain := st.Plain
+		if w.Hook != nil {
+			if hp, ok := w.Hook("plain", num, Str{B: plain}).(Str); ok {
+				plain = hp.B
+			}
+		}
+		st.Raw = Encode(plain, st.Filters, w.r)
 	}
 	d := append(Dict{}, st.Dict...)
 	var lenObj Obj = len(st.Raw)
